@@ -7,10 +7,14 @@ CONSTANTS
   MaxDepth = 6
   FORGET = {"mt"}
   NOCOPY = {}
+  OBJ = "grain"
+  ALIASARG = FALSE
+  UNWRITTEN = {}
   EmitMode = 0
 INVARIANT Coherent
 INVARIANT ReadFresh
 INVARIANT DepClosed
 INVARIANT CacheType
+INVARIANT UbiOwn
 VIEW View
 CHECK_DEADLOCK FALSE
